@@ -366,6 +366,18 @@ def main():
                 if e > 20 * b2 + 5e-6:
                     ck.violation("statevector-equals-densitymatrix",
                                  "sampled", dict(rp, err=e, bound=b2), rp)
+                # the library's own conversion of the evolution of the state
+                # vector into an evolution of the density matrix
+                dme = numpy.array(pe.get_DensityMatrixEvolution().data)
+                e3 = float(max(numpy.abs(
+                    numpy.outer(pd[i], pd[i].conj()) - dme[i]).max()
+                    for i in range(Nt)))
+                ck.case("statevector-to-densitymatrix", s,
+                        sample=dict(rp, err=e3))
+                if e3 > 1e-6:
+                    ck.violation("statevector-equals-densitymatrix",
+                                 "get_DensityMatrixEvolution",
+                                 dict(rp, err=e3), rp)
 
     ck.assume("exact part: 2-level systems, real Lindblad operators, orders "
               "2/4/6, refinement 1-2, 1-2 stored steps (32-bit integers of "
